@@ -383,7 +383,7 @@ func gatedStart(net *Net, victim int, seed int64, finish bool) (ok bool, detail 
 }
 
 func runC09(r *Run, rng *rand.Rand, thorough bool) {
-	r.Rule = "the harness is rebuilt with the Go race detector; every Start and every delivery of whole protocol runs is made from its own goroutine with seeded yields and sleeps, while three goroutines per party poll WaitingFor (reading every entry of the answer, keeping it and checking that a later call does not change it) and (every second run) feed unparsable bytes; plus gated runs in which the deliveries a party received before its Start() are released at the same instant as that Start() (spin gate, seeded skew, hundreds of fresh parties), after which the run must complete like the sequential one; non-trivial = one completed concurrent run; direct assertions: no DATA RACE report, every party ends exactly once"
+	r.Rule = "the harness is rebuilt with the Go race detector; every Start and every delivery of whole protocol runs is made from its own goroutine with seeded yields and sleeps, while three goroutines per party poll WaitingFor (reading every entry of the answer, keeping it and checking that a later call does not change it) and (every second run) feed unparsable bytes; plus gated runs in which the deliveries a party received before its Start() are released at the same instant as that Start() (spin gate, seeded skew, hundreds of fresh parties), after which the run must complete like the sequential one; plus, in all six protocols, Start() of every party against three goroutines per party handing it unparsable bytes (nothing genuine delivered); non-trivial = one completed concurrent run; direct assertions: no DATA RACE report, every party ends exactly once"
 	self, _ := os.Executable()
 	raceBin := os.Getenv("VH_RACE")
 	if raceBin == "" {
